@@ -422,13 +422,13 @@ func (v *Value) Iterate(fn func(idx, count int, key, value *Value) bool, empty f
 func (v *Value) IterateOrder(fn func(idx, count int, key, value *Value) bool, empty func(), reverse bool, sorted bool) {
 	switch v.getResolvedValue().Kind() {
 	case reflect.Map:
+		// Go's maps have no order of their own: the keys are always visited in sorted
+		// order (like text/template does), so that equal data renders equally
 		keys := sortedKeys(v.getResolvedValue().MapKeys())
-		if sorted {
-			if reverse {
-				sort.Sort(sort.Reverse(keys))
-			} else {
-				sort.Sort(keys)
-			}
+		if sorted && reverse {
+			sort.Sort(sort.Reverse(keys))
+		} else {
+			sort.Sort(keys)
 		}
 		keyLen := len(keys)
 		for idx, key := range keys {
